@@ -161,7 +161,10 @@ PROPS["C08"] = dict(
                "duplication, transposition, insertion, invalid-content variant, the 16/17 warning boundary and a pruned enumeration from the initial state are played by the puppet peer "
                "against the real endpoints of both stacks and compared with the automaton and with the language.",
     level_note="Trusted: Coq kernel + vm_compute; the event abstraction (one record = one event; `ok` = the contents pass the receiver's checks, which C02/C07 analyse); the puppet peer. "
-               "F12 (dtlcp decrypts an old-epoch record with the new keys before the epoch check, so a retransmitted epoch-0 record after ChangeCipherSpec kills the handshake) is a known finding.",
+               "Datagram stack: the language is the standard's flows modulo the records a datagram endpoint must drop to survive loss and reordering (C19): records of another epoch / replayed, "
+               "a ChangeCipherSpec it cannot use yet, handshake records while the ChangeCipherSpec is awaited, retransmitted ClientHellos; theorem dclient/dserver_refines_stream ties every completion "
+               "back to a sequence the stream automaton accepts.  In the harness a ChangeCipherSpec event that the target is not waiting for is sent without the puppet changing its write epoch (the event is "
+               "'a CCS of the current epoch arrives').  F12 (old-epoch record after the ChangeCipherSpec was fatal) is fixed (73e5128).",
     code_names={1: "completed-on-an-order-the-standard-does-not-allow", 2: "refused-a-legal-flow", 3: "old-epoch-record-after-CCS-is-fatal", "hang": "hang"},
     assumptions=["handshake messages arrive whole in their own record (fragmentation is C14/C17's subject)"],
     trusted=["harness/internal/puppet", "verif hooks VerifClientHello / VerifGenerateCookie (valid cookies for the datagram server)"],
